@@ -52,6 +52,7 @@ P = {
          'most once), and the budget is QUADRATIC: with candidates taken up to == at most 3n of them lie strictly inside a sub-segment of '
          'one edge and queue filling allocates at most 2n events, so 2n(1+6n) = 12n^2 + 2n events suffice for n input edges '
          '(C03_event_bound_quadratic; the hook enforces the tighter 4n^2 + 2n + 16 on every run, never exceeded), and for sweeps that run to completion the closure hypothesis is a theorem (C03_exact_complete_run_index_safe). '
+         'The two assertions of divide_segment cannot fire when a left event is divided at a point that comes lexicographically after it, in every build profile (C03_divide_segment_assertions_cannot_fire). '
          'NOT proved: the event bound in floating point, and that '
          'contours[lower_contour_id] is in range (geometric; N1/N6 reach it); observed per run (budget hook, catch_unwind, child processes '
          'incl. staggered early-break scenarios).', '§7 C03', 'Coq: termination/container theorems; outcome correspondence release+debug, f64+f32; event-budget hook'),
